@@ -5,8 +5,12 @@ from pandapower.auxiliary import pandapowerNet
 class AccessLog:
     """while active, every item access on ANY pandapowerNet is recorded for the net object given"""
 
-    def __init__(self, net):
+    def __init__(self, net, sub=()):
+        """sub: top-level keys whose value is a dict whose entries are logged one by one (as "<key>/<entry>"); the dict
+        object is replaced by a logging copy for the duration of the block"""
         self.net_id = id(net)
+        self.net = net
+        self.sub = tuple(sub)
         self.first = {}       # key -> 'R' | 'W'
         self.events = []
 
@@ -19,6 +23,9 @@ class AccessLog:
     def __enter__(self):
         log = self
         cls = pandapowerNet
+        for k in self.sub:
+            if dict.__contains__(self.net, k) and isinstance(dict.__getitem__(self.net, k), dict):
+                dict.__setitem__(self.net, k, LoggedDict(self, k, dict.__getitem__(self.net, k)))
         self._saved = {n: cls.__dict__.get(n) for n in ("__getitem__", "__setitem__", "__contains__", "get", "__delitem__", "pop", "setdefault")}
 
         def gi(s, k):
@@ -54,6 +61,9 @@ class AccessLog:
 
     def __exit__(self, *a):
         cls = pandapowerNet
+        for k in self.sub:
+            if dict.__contains__(self.net, k) and isinstance(dict.__getitem__(self.net, k), LoggedDict):
+                dict.__setitem__(self.net, k, dict(dict.__getitem__(self.net, k)))
         for n, f in self._saved.items():
             if f is None:
                 try:
@@ -62,3 +72,52 @@ class AccessLog:
                     pass
             else:
                 setattr(cls, n, f)
+
+
+class LoggedDict(dict):
+    """a dict that reports the first access per entry to an AccessLog under the key "<name>/<entry>" """
+
+    def __init__(self, log, name, content):
+        dict.__init__(self, content)
+        self._log, self._name = log, name
+
+    def _n(self, k, kind):
+        key = "%s/%s" % (self._name, k)
+        if key not in self._log.first:
+            self._log.first[key] = kind
+        self._log.events.append((kind, key))
+
+    def __getitem__(self, k):
+        self._n(k, "R")
+        return dict.__getitem__(self, k)
+
+    def __setitem__(self, k, v):
+        self._n(k, "W")
+        return dict.__setitem__(self, k, v)
+
+    def __contains__(self, k):
+        self._n(k, "R")
+        return dict.__contains__(self, k)
+
+    def get(self, k, d=None):
+        self._n(k, "R")
+        return dict.get(self, k, d)
+
+    def pop(self, k, *d):
+        self._n(k, "R")
+        return dict.pop(self, k, *d)
+
+    def setdefault(self, k, d=None):
+        self._n(k, "R")
+        return dict.setdefault(self, k, d)
+
+    def __delitem__(self, k):
+        self._n(k, "W")
+        return dict.__delitem__(self, k)
+
+    def __reduce__(self):
+        return (dict, (dict(self),))
+
+    def __deepcopy__(self, memo):
+        import copy
+        return copy.deepcopy(dict(self), memo)
